@@ -159,7 +159,7 @@ spec("C08", "Fixed point after one pass",
      not_decided="byte identity of the 2nd and 3rd emission in general (quote guards, indentation, wrapping are value-level)")
 
 spec("C09", "sync makes targets agree",
-     [C.rule_call_direct, C.rule_call_dispatch, C2.rule_cli2, V.rule_visit1, F.rule_file5, F.rule_file2b, F.rule_file2c, M.rule_modf2_conform, det3("sync", "conformance.ground_truth"), pit("sync", "conformance.ground_truth")],
+     [C.rule_call_direct, C.rule_call_dispatch, C2.rule_cli2, V.rule_visit1, F.rule_file5, F.rule_file2b, F.rule_file2c, F.rule_file2d, V.rule_visit4, M.rule_modf2_conform, det3("sync", "conformance.ground_truth"), pit("sync", "conformance.ground_truth")],
      "Necessary conditions: (CALL) every call through the sync dispatch table binds to its callee's signature for every table row and branch (create / append / replace), "
      "on top of 290+ directly resolved calls; (CLI-2) no accepted combination of the three kinds dereferences an option that was not given (192 abstract states); (VISIT-1) "
      "every visit_<T> override of the replacer replaces under the location predicate or delegates; (FILE-5) an appended definition starts on a new line; (FILE-2c) an "
@@ -169,7 +169,7 @@ spec("C09", "sync makes targets agree",
      not_decided="that the parsed targets equal the truth IR (values); method target absent from the file (a bare function is appended)")
 
 spec("C10", "sync idempotent / truth untouched / truthful report",
-     [F.rule_file0, F.rule_file1_truth, F.rule_file1b, F.rule_file2, F.rule_file2b, C.rule_call_dispatch, F.rule_file5, det3("sync", "conformance.ground_truth"), pit("sync", "conformance.ground_truth")],
+     [F.rule_file0, F.rule_file1_truth, F.rule_file1b, F.rule_file2, F.rule_file2b, C.rule_call_dispatch, F.rule_file2d, F.rule_file5, det3("sync", "conformance.ground_truth"), pit("sync", "conformance.ground_truth")],
      "Necessary conditions: (FILE-1) every call from the sync worker that can reach a write sink is guarded by a comparison of the target filename with the truth file; (FILE-1b) both sides of that comparison are canonicalised by the same path functions; (CALL-SIB) the create / append / replace branches emit with the same option flags; "
      "(FILE-2) on every enumerated path of _conform_filename the returned and printed changed-flag is true iff a write lies on the path; (FILE-2b) the in-place rewrite is "
      "control-dependent on an AST-inequality test. (FILE-5) a definition appended to an existing file starts on a new line after every other transformation of the text (otherwise it is glued to the last line, is not found by the next run, and is appended again). (DET-3, scoped) no function on this property's code path writes state that outlives the call (module globals/objects, function or class attributes, mutated mutable defaults, memoised mutable results): the conversion is not history-dependent.",
@@ -178,7 +178,7 @@ spec("C10", "sync idempotent / truth untouched / truthful report",
      not_decided="byte identity of a second run (needs emit.parse to be a fixed point: value-level); growth by repeated append when the lookup cannot find what was appended")
 
 spec("C11", "sync preserves the rest",
-     [named(M.rule_modf, "rule_modf_sync", workers=("conformance._conform_filename",)), F.rule_file5, F.rule_file3, V.rule_visit2, V.rule_visit6, V.rule_visit4, V.rule_visit4b, det3("sync", "conformance.ground_truth"), pit("sync", "conformance.ground_truth")],
+     [named(M.rule_modf, "rule_modf_sync", workers=("conformance._conform_filename",)), F.rule_file5, F.rule_file2d, F.rule_file2b, F.rule_file3, V.rule_visit2, V.rule_visit6, V.rule_visit4, V.rule_visit4b, det3("sync", "conformance.ground_truth"), pit("sync", "conformance.ground_truth")],
      "Necessary conditions: (MOD-F) between reading a target module and writing it back the only field-visible writes on the tree are the replacer's or identity-preserving "
      "re-listings, the reader's docstring re-indent being disabled at the call site; (FILE-5) appended text starts on a new line so the file still parses; (VISIT-2) at most "
      "one node is replaced; (VISIT-6) locations are compared by exact equality; (VISIT-4) locations are built inductively, so only the addressed node can match. (DET-3, scoped) no function on this property's code path writes state that outlives the call (module globals/objects, function or class attributes, mutated mutable defaults, memoised mutable results): the conversion is not history-dependent.",
